@@ -99,3 +99,16 @@ Theorem C17_marlin_commit_serves :
     exists mc mr, commit1 ck lp None = Ok (mc, mr, O).
 Proof. exact @marlin_commit_serves. Qed.
 Print Assumptions C17_marlin_commit_serves.
+
+(* multilinear PST: a polynomial with another number of variables than the key is refused by the committer
+   and by the prover (defect a7c7271, repaired) *)
+From Coq Require Import Arith List.
+From PC Require Import Schemes.MLPC Proofs.MLPCFacts.
+Theorem C17_multilinear_commit_refuses_wrong_num_vars :
+  forall (FO : FieldOps) ck nvp f, nvp <> mp_nv ck -> ml_commit ck nvp f = Panic.
+Proof. exact @ml_commit_refuses_wrong_num_vars. Qed.
+Print Assumptions C17_multilinear_commit_refuses_wrong_num_vars.
+Theorem C17_multilinear_open_refuses_wrong_num_vars :
+  forall (FO : FieldOps) ck nvp f z, nvp <> mp_nv ck -> ml_open ck nvp f z = Panic.
+Proof. exact @ml_open_refuses_wrong_num_vars. Qed.
+Print Assumptions C17_multilinear_open_refuses_wrong_num_vars.
